@@ -563,7 +563,7 @@ class History(object):
                 self.sis.append(si)
         return kind, si, sh
 
-    def body_for(self, route, si, sh, garbage):
+    def body_for(self, route, si, sh, garbage, valid=False):
         """-> (extra headers, body bytes or None, content_range_ok)"""
         from allmydata.util.cbor import dumps
         r = self.r
@@ -578,7 +578,7 @@ class History(object):
             a = r.randrange(size)
             b = min(size, a + r.choice([1, 8, size]))
             data = self.data_for(si, sh, size)[a:b]
-            mode = r.random()
+            mode = 0.0 if valid else r.random()
             if mode < 0.8:
                 return [("Content-Range", b"bytes %d-%d/*" % (a, b - 1))], data, True
             if mode < 0.9:
@@ -598,14 +598,19 @@ class History(object):
             return [], None, True
         return [], None, True
 
-    def attack(self, step, route):
+    def attack(self, step, route, force=None):
+        """One request.  force = {"target": (si, sh), "secret": bytes, "recipe": str}: everything right
+        except that the upload secret presented is `secret` (another upload's, or a random one)."""
         ctx = self.ctx
         r = self.r
         kinds = self.kinds
-        tkind, si, sh = self.pick_target(route)
+        if force:
+            tkind, (si, sh) = "in-progress", force["target"]
+        else:
+            tkind, si, sh = self.pick_target(route)
         method = route.methods[0]
         wrong_method = False
-        if r.random() < 0.06:
+        if not force and r.random() < 0.06:
             method = r.choice([m for m in ["GET", "HEAD", "POST", "PUT", "PATCH", "DELETE"] if m not in route.methods])
             wrong_method = True
         arecipe, auths = auth_values(r, self.swissnum)
@@ -619,7 +624,9 @@ class History(object):
         }
         # focused attack: everything right except the per-upload / per-slot secret
         focus = None
-        if not wrong_method and r.random() < 0.4:
+        if force:
+            focus = "UPLOAD"
+        elif not wrong_method and r.random() < 0.4:
             if route.name in ("write_share_data", "abort_share_upload") and (si, sh) in self.uploads:
                 focus = "UPLOAD"
             elif route.name == "mutable_read_test_write" and self.slot_shares.get(si):
@@ -630,15 +637,23 @@ class History(object):
             value = correct_for.get(member) or rb(r, 32)
             if focus:
                 kb = kind.encode("ascii")
-                if member == focus:
+                if member == focus and force:
+                    rec, vals = force["recipe"], [kb + b" " + b64(force["secret"])]
+                elif member == focus:
                     other = rb(r, len(value))
-                    rec, vals = r.choice([
-                        ("wrong-value", [kb + b" " + b64(other)]),
-                        ("wrong-value", [kb + b" " + b64(other)]),
-                        ("dup-correct-then-wrong", [kb + b" " + b64(value), kb + b" " + b64(other)]),
-                        ("prefix-of-secret", [kb + b" " + b64(value[:-1])]),
-                        ("secret-plus-byte", [kb + b" " + b64(value + b"\x00")]),
-                    ])
+                    others = sorted(set(sec for k2, sec in self.uploads.items() if k2 != (si, sh) and sec != value))
+                    if focus == "UPLOAD" and others and r.random() < 0.5:
+                        # the secret of ANOTHER in-progress upload (same share number elsewhere first)
+                        same = sorted(set(sec for k2, sec in self.uploads.items() if k2[1] == sh and k2[0] != si and sec != value))
+                        rec, vals = "other-uploads-secret", [kb + b" " + b64(r.choice(same or others))]
+                    else:
+                        rec, vals = r.choice([
+                            ("wrong-value", [kb + b" " + b64(other)]),
+                            ("wrong-value", [kb + b" " + b64(other)]),
+                            ("dup-correct-then-wrong", [kb + b" " + b64(value), kb + b" " + b64(other)]),
+                            ("prefix-of-secret", [kb + b" " + b64(value[:-1])]),
+                            ("secret-plus-byte", [kb + b" " + b64(value + b"\x00")]),
+                        ])
                 elif member in route.required:
                     rec, vals = "correct", [kb + b" " + b64(value)]
                 else:
@@ -656,7 +671,7 @@ class History(object):
         garbage = r.random() < 0.05 and route.name != "write_share_data" and not focus
         uploads_before = dict(self.uploads)
         slots_before = dict(self.slots)
-        extra, body, cr_ok = self.body_for(route, si, sh, garbage)
+        extra, body, cr_ok = self.body_for(route, si, sh, garbage, valid=bool(force))
         path = build_path(route.url, si, sh)
         headers = [("Authorization", a) for a in auths] + [("X-Tahoe-Authorization", x) for x in xauths] + extra
 
@@ -726,7 +741,7 @@ class History(object):
                                 case=case, expected="no stored data in the body", observed=rbody[:200])
         ctx.case(nontrivial, kind="%s:%s" % (route.name, "swissnum-ok" if carries_swissnum else "no-swissnum"))
         ctx.count("status:%d" % code)
-        if step < 2 and self.hidx == 0:
+        if isinstance(step, int) and step < 2 and self.hidx == 0:
             ctx.sample(case)
 
         # ---- bookkeeping when a request with all the right secrets went through ----
@@ -792,8 +807,67 @@ class History(object):
         return {"history": self.hidx, "step": step, "route": route.name, "method": method, "target": tkind,
                 "authorization_recipe": arecipe, "secret_recipes": sorted(xrecipes)}
 
+    def cross_upload_scenario(self):
+        """Two or three clients upload the SAME share numbers at DIFFERENT storage indexes with
+        different upload secrets, at the same time.  Each client's secret is then tried against
+        the others' uploads (PATCH and abort), before and after one of the uploads completed:
+        a write/abort with another upload's secret must be refused and change nothing."""
+        from allmydata.storage.http_client import StorageClientImmutables
+        r = self.r
+        byname = {x.name: x for x in self.routes}
+        if "write_share_data" not in byname or "abort_share_upload" not in byname:
+            return
+        im = StorageClientImmutables(self.store.client)
+        clients = []
+        size = 64
+        for _ in range(r.choice([2, 2, 3])):
+            si, secret = rb(r, 16), rb(r, 20)
+            self.sis.append(si)
+            try:
+                res = self.store.run(im.create(si, {0, 1}, size, secret, rb(r, 32), rb(r, 32)))
+            except Exception as e:      # noqa
+                self.ctx.count("legit-op-failed:" + type(e).__name__)
+                continue
+            for sh in res.allocated:
+                self.uploads[(si, sh)] = secret
+                self.alloc[(si, sh)] = size
+                self.written[(si, sh)] = set()
+            clients.append((si, secret))
+        n = [0]
+
+        def cross(phase):
+            for (si_a, sec_a) in clients:
+                for (si_b, sec_b) in clients:
+                    if si_a == si_b:
+                        continue
+                    for rname, sh in (("write_share_data", 0), ("abort_share_upload", 1)):
+                        if (si_a, sh) in self.uploads:
+                            self.attack("cross-%s-%d" % (phase, n[0]), byname[rname],
+                                        force={"target": (si_a, sh), "secret": sec_b, "recipe": "other-uploads-secret"})
+                            n[0] += 1
+        cross("concurrent")
+        # one of the uploads completes (its own client, its own secret)
+        if clients:
+            si0, sec0 = clients[0]
+            try:
+                prog = self.store.run(im.write_share_chunk(si0, 0, sec0, 0, self.data_for(si0, 0, size)))
+                if prog.finished and (si0, 0) in self.uploads:
+                    self.complete.add((si0, 0))
+                    del self.uploads[(si0, 0)]
+            except Exception as e:      # noqa
+                self.ctx.count("legit-op-failed:" + type(e).__name__)
+        cross("after-completion")
+        # ... and a secret nobody has
+        for (si_a, _sec) in clients[1:]:
+            for rname, sh in (("write_share_data", 0), ("abort_share_upload", 0)):
+                if (si_a, sh) in self.uploads:
+                    self.attack("cross-random-%d" % n[0], byname[rname],
+                                force={"target": (si_a, sh), "secret": rb(r, 20), "recipe": "wrong-value"})
+                    n[0] += 1
+
     def run(self, nsteps):
         self.setup()
+        self.cross_upload_scenario()
         order = list(self.routes)
         self.r.shuffle(order)
         for step in range(nsteps):
@@ -981,8 +1055,10 @@ def replay(ctx, rec):
     members, routes = route_table()
     if "history" in case:
         H = History(ctx, case["history"], members, routes)
-        H.run(max(case.get("step", 0) + 1, 1))
-        return {"history": case["history"], "steps_run": case.get("step", 0) + 1,
+        step = case.get("step", 0)
+        step = step if isinstance(step, int) else 0       # "cross-...": the scenario at the start of every history
+        H.run(max(step + 1, 1))
+        return {"history": case["history"], "steps_run": step + 1,
                 "failures": [f["kind"] for f in ctx.failures]}
     if "headers" in case:
         from allmydata.storage.http_server import _extract_secrets
